@@ -50,7 +50,8 @@ var c44Pool = []string{"/a", "/b", "/c", "/a/x", "/a/y", "/a/x/p", "/a/x/q", "/b
 var c44Risky = map[string]bool{
 	"open dir-for-writing":           true, // memFS opens directories for writing
 	"open root-for-writing":          false,
-	"open append":                    true, // memFS rejects O_APPEND / O_SYNC
+	"open append":                    true, // memFS rejects O_APPEND
+	"open sync":                      true, // memFS rejects O_SYNC
 	"read wronly-handle":             true, // memFS reads through an O_WRONLY handle
 	"write rdonly-handle":            true, // memFS writes through an O_RDONLY handle
 	"removeall parent-missing":       true, // memFS fails, os.RemoveAll returns nil
@@ -187,8 +188,10 @@ func c44OpenShape(kind string, flag int) string {
 		return "dir-for-writing"
 	case w && kind == "root":
 		return "root-for-writing"
-	case flag&(os.O_APPEND|os.O_SYNC) != 0 && kind != "root":
+	case flag&os.O_APPEND != 0 && kind != "root":
 		return "append"
+	case flag&os.O_SYNC != 0 && kind != "root":
+		return "sync"
 	}
 	s := kind + "-r"
 	if w {
@@ -259,6 +262,14 @@ func (x *c44Run) opOpen() {
 		if nf != nil {
 			nf.Close()
 		}
+		if shape == "dir-for-writing" && mErr == nil && nErr != nil {
+			// memFS handed out a handle on an existing directory and native refused: neither
+			// tree changed (O_CREATE / O_TRUNC do nothing to an existing directory in memFS,
+			// the final tree comparison would tell otherwise), the handle is dropped and the
+			// history goes on, so everything after this op shape stays checked.
+			x.ended = ""
+			x.r.Event("continued_after_open_dir_for_writing", 1)
+		}
 		return
 	}
 	if mErr != nil {
@@ -328,6 +339,8 @@ func (x *c44Run) opWrite() {
 				where = "empty-write-past-eof"
 			case n == 0:
 				where = "empty-write"
+			case h.flag&os.O_APPEND != 0:
+				where = "append-write" // lands at the end of the file wherever the position is
 			case pos > fi.Size():
 				where = "write-past-eof"
 			case pos == fi.Size():
